@@ -177,7 +177,8 @@ func runHistories(cfg *hx.Config, r *hx.Rand, rep *hx.Report, sh *hx.Shards) {
 			e := firsts[r.Intn(len(firsts))]
 			// every 10th history is also a case for the model (the bytes after the failed operation against the model encoder)
 			var shx *hx.Shards
-			if h%10 == 0 {
+			if h%10 == 0 && len(e.out[0]) < 20000 {
+				// (the very wide values are oracle-only: the model's fuel / coqc's stack bound the size of a case)
 				shx = sh
 			}
 			runRoundTripAfter(e, hist, rep, shx)
